@@ -44,7 +44,7 @@ def run(W, p):
     gridfile = str(tmp / "grid.nc")
     (tmp / "grid.nc").touch()
     dt, outv, freqv, diff = _tok(1), _tok(2), _tok(3), _tok(4)
-    sub = [_tok(11), _tok(12), _tok(13), _tok(14)]
+    sub = [_tok(13), _tok(11), _tok(14), _tok(12)]  # deliberately not monotone
     ibmopt = _tok(21)
     relvars = ["mult", "release_time", "X", "Y", "Z"] + (["super", "farm"] if flags["has_pvars"] else [])
     start, stop, ref = "2000-01-04 00:00:00", "2000-01-09 00:00:00", "1999-12-31 00:00:00"
@@ -139,12 +139,18 @@ def run(W, p):
     (tmp / "v1.yaml").write_text("\n".join(y1) + "\n")
     cwd = os.getcwd()
     os.chdir(tmp)
+    real_path = conf.Path
+    conf.Path = _adversarial_path(real_path)  # directory listings come in arbitrary order: return them reverse-sorted
     try:
         c_y2 = conf.configure(tmp / "v2.yaml")
         c_t2 = conf.configure(tmp / "v2.toml")
         c_y1 = conf.configure(tmp / "v1.yaml")
     finally:
+        conf.Path = real_path
         os.chdir(cwd)
+    for nm, c in (("v2-yaml", c_y2), ("v2-toml", c_t2), ("v1-yaml", c_y1)):
+        bad = [sec for sec in SECTIONS if not isinstance(c.get(sec), dict)]
+        W.prove(not bad, "optional-sections", dict(spelling=nm, not_a_dict=bad, note="Model needs every section as a dict"))
     n_y2, n_t2, n_y1 = (_norm(c) for c in (c_y2, c_t2, c_y1))
     W.prove(n_y2 == n_t2, "yaml-toml-equal", dict(diff=_diff(n_y2, n_t2), flags=flags))
     W.prove(n_y2 == n_y1, "v1-v2-equal", dict(diff=_diff(n_y2, n_y1), flags=flags))
@@ -154,6 +160,17 @@ def run(W, p):
     else:
         W.prove(n_y2["grid"].get("filename") == gridfile, "grid-default", dict(grid=n_y2["grid"]))
     return tuple(sorted(k for k, v in flags.items() if v))
+
+
+SECTIONS = ("state", "time", "grid", "forcing", "release", "tracker", "ibm", "output", "warm_start")
+
+
+def _adversarial_path(real):
+    class P(type(real())):
+        def glob(self, pattern, **kw):
+            return iter(sorted(super().glob(pattern, **kw), reverse=True))
+
+    return P
 
 
 def _norm(c):
@@ -201,8 +218,10 @@ def optional(W, p):
     full = base + ["state: {}", "ibm: {}", "warm_start: {}", f"grid: {{module: ladim.ROMS, filename: {tmp / 'ocean.nc'}}}"]
     (tmp / "a.yaml").write_text("\n".join(base) + "\n")
     (tmp / "b.yaml").write_text("\n".join(full) + "\n")
-    a, b = _norm(conf.configure(tmp / "a.yaml")), _norm(conf.configure(tmp / "b.yaml"))
-    W.prove(a == b, "optional-sections", dict(diff=_diff(a, b)))
+    ca, cb = conf.configure(tmp / "a.yaml"), conf.configure(tmp / "b.yaml")
+    bad = [sec for sec in SECTIONS for c in (ca, cb) if not isinstance(c.get(sec), dict)]
+    a, b = _norm(ca), _norm(cb)
+    W.prove(a == b and not bad, "optional-sections", dict(diff=_diff(a, b), not_a_dict=bad))
     # a missing mandatory section is refused
     for missing in ("tracker", "time", "release", "output", "forcing"):
         lines = [ln for ln in base if not ln.startswith(missing + ":")]
